@@ -227,6 +227,22 @@ class Program:
         text = "\n".join(out) + "\n"
         return text.replace("\n", "\r\n") if self.crlf else text
 
+    def comment_order(self):
+        """position of every leading / trailing / before-closing-brace comment in the statement stream the linter walks
+        (embedded snippet statements included)"""
+        seq = {}
+
+        def go(n):
+            for c in n.pre_lead + n.fixed_lead + n.lead + n.trail:
+                seq[id(c)] = len(seq)
+            for k in n.kids:
+                go(k)
+            for c in n.infix:
+                seq[id(c)] = len(seq)
+        for s in self.subs:
+            go(s)
+        return seq
+
     def render_snippets(self):
         """managed snippets embedded at the #FASTLY macro: their text (from the nodes that carry a file name), the request
         suffix for `implrun lint-ignore`, and the line of each of their statements"""
